@@ -265,23 +265,26 @@ def r2(ctx):
     # the clock: callers pass system_time_now()
     for must in ("ns", "ts", "verify", "origin"):
         ctx.check(must in seen_kinds, "C03.R2", b.path, "tests-present.%s" % must, "an Ok path decides on %s" % must, b.sp)
-    # validate_empty: Ok iff (hash==EMPTY) == (len==0)
+    # validate_empty: Ok iff (hash==EMPTY) == (len==0) -- finite evaluation over the two atoms
+    from . import feval as E
     ve = f.body("sync::Entry::validate_empty")
     ctx.touch(ve)
-    vps = P.explore(ve)
     rows = {}
-    for p in vps:
-        hv = lv = None
-        for k, v in p.decisions:
-            if k[0] == "cmp" and k[1] == "==":
-                if "content_hash" in k[2] + k[3] and "EMPTY" in k[2] + k[3]:
-                    hv = 1 if v in (1, "otherwise") else 0
-                if "content_len" in k[2] + k[3] and "const:0" in (k[2], k[3]):
-                    lv = 1 if v in (1, "otherwise") else 0
-        if hv is None or lv is None:
-            ctx.bad("C03.R2", ve.path, "table.form", "path not decided on (hash==EMPTY, len==0): %s (UNSUPPORTED-FORM)" % P.fmt_decisions(p), ve.sp)
-            continue
-        rows[(hv, lv)] = p.ret[1] if p.ret[0] == "variant" else str(p.ret)
+    for hv in (1, 0):
+        for lv in (1, 0):
+            def oracle(kind, a, b2, site, hv=hv, lv=lv):
+                if kind in ("eq", "cmp"):
+                    sa, sb = str(a), str(b2)
+                    if "EMPTY" in sa + sb:
+                        return bool(hv) if kind == "eq" else (0 if hv else 1)
+                    if "0" in (sa, sb):
+                        return bool(lv) if kind == "eq" else (0 if lv else (1 if sb == "0" else -1))
+                return None
+            try:
+                ret, h, ev = E.run(f, ve.path, [E.href("self")], {"self": E.Tok("entry")}, oracle)
+                rows[(hv, lv)] = E.describe(ret, f).split("(")[0]
+            except E.Unsupported as e:
+                rows[(hv, lv)] = "UNSUPPORTED-FORM: %s" % e
     spec = {(1, 1): "Ok", (0, 0): "Ok", (1, 0): "Err", (0, 1): "Err"}
     ctx.check(rows == spec, "C03.R2", ve.path, "truth-table", "(hash==EMPTY, len==0) -> %s; spec %s" % (rows, spec), ve.sp)
     se = f.body("sync::SignedEntry::validate_empty")
@@ -425,17 +428,20 @@ def r5(ctx):
         raise mir.AnchorMissing("expected >=2 constructions of InsertOrigin::Local, found %d" % n)
     # in those two functions the entry is signed with the capability's secret key (success payload of secret_key)
     for p in sorted(allowed):
-        b = f.body(p)
+        ctx.touch(f.body(p))
+        # the signing call may live in the function itself or in a private helper it calls
+        signs = []
+        for b in f.local_callees(p, depth=2, prefix="sync::Replica"):
+            for bi, t in b.calls():
+                if callee_matches(t, r"sync::Entry::sign$") or callee_matches(t, r"sync::SignedEntry::from_entry$"):
+                    signs.append((b, t))
+        if len(signs) != 1:
+            ctx.bad("C03.R5", p, "signs-with-capability-secret", "expected exactly one signing call reachable from the function, found %d" % len(signs), f.body(p).sp)
+            continue
+        b, t = signs[0]
         ctx.touch(b)
-        bi, t = one_call(b, r"sync::Entry::sign$")
-        origs = trace(b, t["a"][1], through_calls=False)
-        ok = False
-        for o in origs:
-            if o.kind == "call" and o.data["f"].get("name") == "branch":
-                for i2 in trace(b, o.data["a"][0], through_calls=False):
-                    if i2.kind == "call" and i2.data["f"].get("name") == "secret_key":
-                        ok = True
-        ctx.check(ok, "C03.R5", p, "signs-with-capability-secret", "Entry::sign receives the Ok payload of self.secret_key()", t["sp"])
+        ok = any(o.kind == "call" and o.data["f"].get("name") == "secret_key" for o in trace(b, t["a"][1]))
+        ctx.check(ok, "C03.R5", p, "signs-with-capability-secret", "the namespace key passed to Entry::sign is the Ok payload of secret_key() (in %s)" % b.path, t["sp"])
     ctx.floor("C03.R5", 4)
 
 
